@@ -452,6 +452,28 @@ pub fn check_injection(inj: &Injection, l: &mut Local) -> Check {
 // ------------------------------------------------------------------------------------------
 // worker / supervisor
 
+/// plants `break` / `continue` (bare or behind a condition) at random positions of a generated body, legal or not
+fn plant_jumps(b: &[S], in_loop: bool, in_cap: bool, legal_only: bool, m: &mut Mix, planted: &mut usize) -> Vec<S> {
+    let mut out = vec![];
+    for s in b {
+        if m.next() % 7 == 0 && (!legal_only || in_loop && !in_cap) {
+            let j = if m.next() % 2 == 0 { S::Break } else { S::Continue };
+            out.push(if m.next() % 2 == 0 { j } else { S::If(vec![(E::Bool(m.next() % 3 != 0), vec![j])], None) });
+            if in_loop && in_cap {
+                *planted += 1;
+            }
+        }
+        out.push(match s {
+            S::If(arms, els) => S::If(arms.iter().map(|(c, b)| (c.clone(), plant_jumps(b, in_loop, in_cap, legal_only, m, planted))).collect(), els.as_ref().map(|b| plant_jumps(b, in_loop, in_cap, legal_only, m, planted))),
+            S::For { key, val, target, body, els } => S::For { key: key.clone(), val: val.clone(), target: target.clone(), body: plant_jumps(body, true, false, legal_only, m, planted), els: els.as_ref().map(|b| plant_jumps(b, in_loop, in_cap, legal_only, m, planted)) },
+            S::SetBlock { name, filters, body, global } => S::SetBlock { name: name.clone(), filters: filters.clone(), body: plant_jumps(body, in_loop, true, legal_only, m, planted), global: *global },
+            S::Filter { name, kwargs, body } => S::Filter { name: name.clone(), kwargs: kwargs.clone(), body: plant_jumps(body, in_loop, true, legal_only, m, planted) },
+            other => other.clone(),
+        });
+    }
+    out
+}
+
 pub fn worker(w: &WorkerArgs) -> i32 {
     std::env::set_var("VERIF_WORKERS", "1");
     let mut rep = Report::new("C07", w.tier, w.seed);
@@ -494,6 +516,42 @@ pub fn worker(w: &WorkerArgs) -> i32 {
         "hostile_expr_c02" => run_family(&rep, &fam, quick(120_000), || (exprgen::expr_strategy(4, exprgen::GenOpts::default()), hostile_ctx(exprgen::ALL_VARS), any::<u64>()), |(e, ctx, salt), l| {
             w.trace_case(|| json!({"kind": "hostile", "source": print(e, Mode::Minimal), "context": ctx_to_json(ctx)}));
             check_hostile_expr(e, ctx, *salt, l)
+        }),
+        "jumps_anywhere" => run_family(&rep, &fam, quick(48_000), || (stmtgen::body(3, false, false, stmtgen::SOpts { includes: &[] }), prop::collection::vec(hostile_ctx(stmtgen::NAMES), 2), any::<u64>()), |(main, ctxs, salt), l| {
+            // `break` / `continue` planted at arbitrary positions (inside captures inside loops, inside component-call bodies,
+            // outside any loop, behind conditions): the parser may refuse the template, but whatever it accepts must render
+            // without panic and leave the loop, capture and value stacks empty
+            let mut planted = 0usize;
+            // half of the cases: only positions the grammar allows (directly in a loop, not across a capture)
+            let legal_only = salt % 2 == 1;
+            let body = plant_jumps(main, false, false, legal_only, &mut Mix(*salt), &mut planted);
+            let mut body = body;
+            if !legal_only && (planted == 0 || salt % 4 == 0) {
+                // make sure the interesting shape exists: loop > capture > condition > jump, followed by text
+                let jump = if salt % 2 == 0 { S::Break } else { S::Continue };
+                let inner = vec![S::Text("c".into()), S::If(vec![(E::Bool(true), vec![jump])], None), S::Text("d".into())];
+                let cap = match (salt / 4) % 3 {
+                    0 => S::Filter { name: "upper".into(), kwargs: vec![], body: inner },
+                    1 => S::SetBlock { name: "k".into(), filters: vec![], body: inner, global: false },
+                    _ => S::Comp { name: "W".into(), args: vec![], body: Some(inner) },
+                };
+                body.push(S::For { key: None, val: "q".into(), target: E::Array(vec![Item::One(E::Int(1)), Item::One(E::Int(2))]), body: vec![S::Text("a".into()), cap, S::Text("b".into())], els: None });
+                body.push(S::Text("after".into()));
+            }
+            let tpls = vec![("lib".to_string(), "{% component W() %}[{{ body }}]{% endcomponent W %}".to_string()), ("main.html".to_string(), print_body(&body))];
+            w.trace_case(|| json!({"kind": "hostile", "templates": tpls, "contexts": ctxs.iter().map(ctx_to_json).collect::<Vec<_>>()}));
+            l.label("set:jumps-anywhere");
+            let mut t = tera::Tera::new();
+            match guard(|| t.add_raw_templates(tpls.clone()).map_err(|e| e.to_string())) {
+                Ok(Ok(())) => l.label("jumps-anywhere:accepted"),
+                Ok(Err(_)) => {
+                    l.eval();
+                    l.label("jumps-anywhere:refused");
+                    return Ok(());
+                }
+                Err(p) => return Err(Fail::new("C07/panic", format!("registering {:?}: {p}", tpls), json!({"kind": "hostile", "templates": tpls}))),
+            }
+            check_hostile_set(&tpls, &["main.html".to_string()], &[], &[], ctxs, *salt, l)
         }),
         "hostile_chains" => run_family(&rep, &fam, quick(24_000), || (super::c04::chain_strategy(5), prop::collection::vec(hostile_ctx(stmtgen::NAMES), 2), any::<u64>()), |(spec, ctxs, salt), l| {
             // generated inheritance chains (block trees, overrides, nested fresh blocks, super() in any position, blocks in captures
@@ -603,6 +661,7 @@ pub fn run(rep: &Report) {
     run_in_workers(rep, "hostile_programs", 16, 600, on_abnormal("hostile_programs"));
     run_in_workers(rep, "inheritance_and_components", 16, 600, on_abnormal("inheritance_and_components"));
     run_in_workers(rep, "hostile_chains", 16, 600, on_abnormal("hostile_chains"));
+    run_in_workers(rep, "jumps_anywhere", 16, 600, on_abnormal("jumps_anywhere"));
     run_in_workers(rep, "big_values", 7, 600, on_abnormal("big_values"));
     for b in BUILTINS {
         let lab = match b.kind {
@@ -612,7 +671,7 @@ pub fn run(rep: &Report) {
         };
         rep.floor(&lab, 500);
     }
-    for (lab, min) in [("render:ok", 100_000), ("render:error", 100_000), ("hostile:bytes", 50_000), ("hostile:float", 50_000), ("hostile:map", 50_000), ("hostile:int", 50_000), ("injection:rejected", 5_000), ("injection:control-accepted", 5_000), ("injection:render_str", 500), ("api:render_block", 10_000), ("api:render_component", 10_000), ("big-value", 300), ("set:c04-chain", 10_000)] {
+    for (lab, min) in [("render:ok", 100_000), ("render:error", 100_000), ("hostile:bytes", 50_000), ("hostile:float", 50_000), ("hostile:map", 50_000), ("hostile:int", 50_000), ("injection:rejected", 5_000), ("injection:control-accepted", 5_000), ("injection:render_str", 500), ("api:render_block", 10_000), ("api:render_component", 10_000), ("big-value", 300), ("set:c04-chain", 10_000), ("jumps-anywhere:accepted", 2_000), ("jumps-anywhere:refused", 10_000)] {
         rep.floor(lab, min);
     }
 }
